@@ -704,7 +704,11 @@ async fn run(_tier: Tier) {
         // A left-over expired RRSIG next to the valid one (re-signing
         // overlap) is legitimate and within the default bad-signature
         // budget of the validator.
-        if sim::chance("legit.stale_sig", 1, 4) && w.add_stale_sig(&mut r, sim::draw("legit.stale_which", 8)) {
+        // (One extra signature that does not verify is within every
+        // bad-signature budget; two are not.)
+        if sim::chance("legit.sig_of_malformed_key", 1, 2) && w.add_sig_naming_malformed_key(&mut r) {
+            sim::stat("probe.rrsig_naming_a_malformed_key_present");
+        } else if sim::chance("legit.stale_sig", 1, 4) && w.add_stale_sig(&mut r, sim::draw("legit.stale_which", 8)) {
             sim::stat("probe.legit_stale_rrsig_present");
         }
         let mut mb = MessageBuilder::new_vec();
